@@ -692,3 +692,45 @@ func checkCommaOkPointerUsedUnderOk(c *Ctx, rule string, want func(fn *ssa.Funct
 	}
 	c.floor(rule, floor)
 }
+
+// checkRepliesHoldNoPooledMemory (C16.R24, shared as C02.R21): a function that builds a reply does not give memory back
+// to a sync.Pool.  The reply is encoded and written later, by the packet manager's sender: memory handed back when the
+// builder returns is taken by the next request while the first reply still points at it — two listings running side by
+// side receive each other's entries.
+func checkRepliesHoldNoPooledMemory(c *Ctx, rule string) {
+	p := c.P
+	n := 0
+	for _, fn := range p.LibFuncs() {
+		o := outermost(fn)
+		if o.Package() != p.Sftp || isClientSide(fn) {
+			continue
+		}
+		builds := false
+		res := o.Signature.Results()
+		for i := 0; i < res.Len(); i++ {
+			t := res.At(i).Type()
+			if typeName(t) == "responsePacket" {
+				builds = true
+			} else if _, isPtr := t.Underlying().(*types.Pointer); isPtr && p.implementsIface(t, "responsePacket") && !p.implementsIface(t, "requestPacket") {
+				builds = true
+			}
+		}
+		if !builds {
+			continue
+		}
+		n++
+		var put ssa.Instruction
+		eachInstr(fn, func(in ssa.Instruction) {
+			if cc := callOf(in); cc != nil && methodCallOn(cc, "sync", "Pool", "Put") {
+				put = in
+			}
+		})
+		pos := p.Pos(fn.Pos())
+		if put != nil {
+			pos = p.Pos(put.Pos())
+		}
+		c.check(put == nil, rule, "no sync.Pool.Put in "+fnName(fn), pos, "the builder of a reply recycles nothing",
+			"a function that builds a reply hands memory back to a sync.Pool: the reply is encoded and written after the function has returned, from memory the next request may already have taken")
+	}
+	c.floor(rule, 20)
+}
